@@ -41,6 +41,10 @@ type Cfg struct {
 	BlockTimeByTip func(tip uint32) (tpb, maxTpb time.Duration)
 	SaltedSigs     bool // block signatures are randomised like ECDSA, see vt.SaltedSigs
 	PreDataTxOnly  bool // pre-commit shares are bound to (height, transactions) only, see vt.PreDataTxOnly
+	// ShareBoundFrom > 0: from this height on the final anti-MEV block depends on which pre-commit shares its builder
+	// found in the context (the first M current-view ones by index), see vt.Block.ShareBound.  Honest nodes that saw
+	// different share sets then build different blocks, so this is only used where per-node oracles judge (C02).
+	ShareBoundFrom uint32
 }
 
 func (c *Cfg) AMEVOn(h uint32) bool { return c.AMEVHeight >= 0 && uint32(c.AMEVHeight) <= h }
@@ -399,6 +403,9 @@ func (w *World) Render() string {
 	}
 	if c.PreDataTxOnly {
 		sb.WriteString("pre-commit shares are bound to (height, transactions) only\n")
+	}
+	if c.ShareBoundFrom > 0 {
+		fmt.Fprintf(&sb, "final anti-MEV blocks depend on the share set used by their builder from height %d on\n", c.ShareBoundFrom)
 	}
 	if len(w.PhaseRank) > 0 {
 		fmt.Fprintf(&sb, "phase skew (arrival rank of proposal/response/pre-commit/commit per node): %v\n", w.PhaseRank)
